@@ -704,6 +704,14 @@ class Table(Vector):
 				dtype = self._dtype
 			)
 
+		# NOT RECOMMENDED (the same row selection a Vector applies for a list of ints)
+		if isinstance(key, list) and {type(e) for e in key} == {int}:
+			if len(self) > 1000:
+				warnings.warn('Subscript indexing is sub-optimal for large vectors')
+			return Vector(tuple(x[key] for x in self._underlying),
+				dtype = self._dtype
+			)
+
 	def __setitem__(self, key, value):
 		"""
 		Support for 2D assignment:
